@@ -175,6 +175,11 @@ func pkcs5Padding(cipherText []byte, blockSize int) []byte {
 
 func pkcs5UnPadding(src []byte, blockSize int) ([]byte, error) {
 	length := len(src)
+	if length == 0 {
+		// 空密文（如仅含换行的加密请求体解码后为零字节）没有填充字节
+		return nil, ErrPaddingSize
+	}
+
 	unPadding := int(src[length-1])
 	if unPadding >= length || unPadding > blockSize {
 		return nil, ErrPaddingSize
